@@ -61,7 +61,7 @@ class CGenerator:
 
     def visit_ArrayRef(self, n: c_ast.ArrayRef) -> str:
         arrref = self._parenthesize_unless_simple(n.name)
-        return arrref + "[" + self.visit(n.subscript) + "]"
+        return arrref + "[" + self._visit_operand(n.subscript) + "]"
 
     def visit_StructRef(self, n: c_ast.StructRef) -> str:
         sref = self._parenthesize_unless_simple(n.name)
@@ -80,7 +80,7 @@ class CGenerator:
             case "sizeof":
                 # Always parenthesize the argument of sizeof since it can be
                 # a name.
-                return f"sizeof({self.visit(n.expr)})"
+                return f"sizeof({self._visit_operand(n.expr)})"
             case "p++":
                 operand = self._parenthesize_unless_simple(n.expr)
                 return f"{operand}++"
@@ -186,6 +186,16 @@ class CGenerator:
                 return "(" + self.visit(n) + ")"
             case _:
                 return self.visit(n)
+
+    def _visit_operand(self, n: c_ast.Node) -> str:
+        """Visits an expression that stands alone between delimiters the
+        statement or operator provides itself ('return ... ;', 'if ( ... )',
+        'a[ ... ]', 'sizeof( ... )').  Only a statement expression needs its
+        own parentheses there: '{ ... }' alone is not an expression.
+        """
+        if isinstance(n, c_ast.Compound):
+            return "(" + self.visit(n) + ")"
+        return self.visit(n)
 
     def visit_Decl(self, n: c_ast.Decl, no_type: bool = False) -> str:
         # no_type is used when a Decl is part of a DeclList, where the type is
@@ -293,7 +303,7 @@ class CGenerator:
     def visit_Return(self, n: c_ast.Return) -> str:
         s = "return"
         if n.expr:
-            s += " " + self.visit(n.expr)
+            s += " " + self._visit_operand(n.expr)
         return s + ";"
 
     def visit_Break(self, n: c_ast.Break) -> str:
@@ -311,7 +321,7 @@ class CGenerator:
     def visit_If(self, n: c_ast.If) -> str:
         s = "if ("
         if n.cond:
-            s += self.visit(n.cond)
+            s += self._visit_operand(n.cond)
         s += ")\n"
         s += self._generate_stmt(n.iftrue, add_indent=True)
         if n.iffalse:
@@ -322,13 +332,13 @@ class CGenerator:
     def visit_For(self, n: c_ast.For) -> str:
         s = "for ("
         if n.init:
-            s += self.visit(n.init)
+            s += self._visit_operand(n.init)
         s += ";"
         if n.cond:
-            s += " " + self.visit(n.cond)
+            s += " " + self._visit_operand(n.cond)
         s += ";"
         if n.next:
-            s += " " + self.visit(n.next)
+            s += " " + self._visit_operand(n.next)
         s += ")\n"
         s += self._generate_stmt(n.stmt, add_indent=True)
         return s
@@ -336,7 +346,7 @@ class CGenerator:
     def visit_While(self, n: c_ast.While) -> str:
         s = "while ("
         if n.cond:
-            s += self.visit(n.cond)
+            s += self._visit_operand(n.cond)
         s += ")\n"
         s += self._generate_stmt(n.stmt, add_indent=True)
         return s
@@ -346,7 +356,7 @@ class CGenerator:
         s += self._generate_stmt(n.stmt, add_indent=True)
         s += self._make_indent() + "while ("
         if n.cond:
-            s += self.visit(n.cond)
+            s += self._visit_operand(n.cond)
         s += ");"
         return s
 
@@ -360,7 +370,7 @@ class CGenerator:
         return s
 
     def visit_Switch(self, n: c_ast.Switch) -> str:
-        s = "switch (" + self.visit(n.cond) + ")\n"
+        s = "switch (" + self._visit_operand(n.cond) + ")\n"
         s += self._generate_stmt(n.stmt, add_indent=True)
         return s
 
